@@ -63,6 +63,7 @@ def precheck (p : Pool) (r : RawOp) : Bool :=
   | 'U' => o == 8 && (p.objs 8).isNone
   | 'b' | 'B' | 'h' | 'H' => alive o && (p.objs 8).isSome
   | 'G' | 'g' => dead o && (p.objs 8).isSome
+  | 'F' => dead o && alive s && alive (r.num 2) && r.num 2 != s
   | 'K' =>
     let n := r.str 2
     (if o == 8 then (p.objs 8).isNone else dead o) && alive s &&
@@ -254,6 +255,28 @@ def toSOp (p : Pool) (r : RawOp) (cur : ObsStep) : Option SOp :=
   | 'Q' => if cur.exc == "" then some .query else (excOfName cur.exc).map .deriveThrow
   | _ => none
 
+/-- `F<d>,<s>,<x>`: `d = ST::format(<text of s>, std::move(<string x>), 42)`, an argument passed as an rvalue.  The
+    formatter refers to its arguments (repaired code: `make_formatter_ref` captures by reference; the pinned code moved the
+    rvalue into a closure before parsing, so a `bad_format` / `out_of_range` left `x` empty - the C18 defect this operation
+    found), so `x` keeps its value whether the call returns or throws: one `derive` step, or nothing when it throws.
+    (`toSOps` / `runSeq` allow one harness operation to be several steps of the model.) -/
+def toSOps (p : Pool) (r : RawOp) (cur : ObsStep) : Option (List SOp) :=
+  if r.c == 'F' then
+    let o := r.num 0
+    let observed (d : Nat) : List Nat := match cur.snap with
+      | some objs => match objs.find? (·.id == d) with | some ob => ob.units | none => []
+      | none => []
+    if cur.exc == "" then some [.derive [(o, observed o)]]
+    else (excOfName cur.exc).map fun e => [.deriveThrow e]
+  else (toSOp p r cur).map fun x => [x]
+
+def runSeq : List SOp → Pool → Pool.Res Unit
+  | [], p => .ok () p
+  | x :: rest, p =>
+    match x.run p with
+    | .ok _ p' => runSeq rest p'
+    | other => other
+
 /-- model snapshot in the harness's format; the pointer flag is `=` (same storage as in the previous
     snapshot), `n` (object new in this snapshot) or `?` (storage changed while alive: the allocator may
     hand the same address out again, so either flag is accepted) -/
@@ -345,6 +368,7 @@ def targetsOfRaw (r : RawOp) : List Nat :=
   | 'b' | 'h' | 'G' => [o, 8]
   | 'U' => [8]
   | 'K' => [o]
+  | 'F' => [o]
   | 'V' => vDests r
   | 'Q' => []
   | _ => [o]
@@ -415,10 +439,10 @@ def stepOne (st : RunState) (opS : String) (cur : ObsStep) (i : Nat) : String ×
   if !precheck st.p r then
     let (snapS, ptrs) := snapshot st.p st.prevPtr
     return (s!"!skip|{snapS}", specOut, { p := st.p, prevPtr := ptrs, prevObs := curObs, vals := vals }, false)
-  match toSOp st.p r cur with
+  match toSOps st.p r cur with
   | none => return ("UNPARSABLE", specOut, { st with prevObs := curObs, vals := vals }, true)
-  | some sop =>
-    match sop.run st.p with
+  | some sops =>
+    match runSeq sops st.p with
     | .ok _ p' =>
       let (snapS, ptrs) := snapshot p' st.prevPtr
       return (snapS, specOut, { p := p', prevPtr := ptrs, prevObs := curObs, vals := vals }, false)
